@@ -27,17 +27,23 @@ inductive Shape where
   | nop | push | pop | dup | const
   | load (id i : Int) | store (id i : Int) | object (n : Int) | append (id i : Int)
   | fork (t : Int) | forktrybegin (t : Int) | forktryend | forkalt (t : Int) | forklabel (id i : Int)
-  | backtrack | jump (t : Int) | jumpifnot (t : Int) | index | indexarray
+  | backtrack | jump (t : Int) | jumpifnot (t : Int) | index (nn : Bool) | indexarray (nn : Bool)
   | call (t : Int) | callNative (kind : NativeKind) (argc : Int) | callrec (t : Int) | pushpc (t : Int) | callpc
   | scope (id vars nargs : Int) | ret | iter | expbegin | expend | pathbegin | pathend | bad
   deriving DecidableEq, Repr, Inhabited
+
+/-- the constant key of `opindex` is not `nil` (a `pathValue` with a nil path is the marker that
+    `pathbegin` pushes) -/
+def nonNull : JV → Bool
+  | .null => false
+  | _ => true
 
 def shape : Instr → Shape
   | .nop => .nop | .push _ => .push | .pop => .pop | .dup => .dup | .const _ => .const
   | .load a b => .load a b | .store a b => .store a b | .object n => .object n | .append a b => .append a b
   | .fork t => .fork t | .forktrybegin t => .forktrybegin t | .forktryend => .forktryend
   | .forkalt t => .forkalt t | .forklabel a b => .forklabel a b | .backtrack => .backtrack
-  | .jump t => .jump t | .jumpifnot t => .jumpifnot t | .index _ => .index | .indexarray _ => .indexarray
+  | .jump t => .jump t | .jumpifnot t => .jumpifnot t | .index k => .index (nonNull k) | .indexarray k => .indexarray (nonNull k)
   | .call t => .call t | .callNative k n => .callNative k n | .callrec t => .callrec t
   | .pushpc t => .pushpc t | .callpc => .callpc | .scope a b c => .scope a b c | .ret => .ret
   | .iter => .iter | .expbegin => .expbegin | .expend => .expend | .pathbegin => .pathbegin
@@ -87,6 +93,9 @@ def nativeNeed : NativeKind → Int
 structure Abs where
   h : Nat
   pend : Bool
+  /-- number of `pathbegin`s of the current activation not yet closed by `pathend` (a lower bound on
+      the segments of the paths stack the activation owns) -/
+  pd : Nat := 0
   deriving DecidableEq, Repr, Inhabited
 
 /-- the abstract transfer function: instruction `ins` at `pc` entered in abstract state `a`.
@@ -113,8 +122,8 @@ def step1 (code : Array Shape) (tab : List (Int × Nat)) (nvars : Nat) (pc : Nat
   | .backtrack => some []
   | .jump t => some [(t, a)]
   | .jumpifnot t => if 1 ≤ a.h then some [((pc : Int) + 1, { a with h := a.h - 1 }), (t, { a with h := a.h - 1 })] else none
-  | .index => if 1 ≤ a.h then some [((pc : Int) + 1, a)] else none
-  | .indexarray => if 1 ≤ a.h then some [((pc : Int) + 1, a)] else none
+  | .index nn => if 1 ≤ a.h ∧ nn = true then some [((pc : Int) + 1, a)] else none
+  | .indexarray nn => if 1 ≤ a.h ∧ nn = true then some [((pc : Int) + 1, a)] else none
   | .call t =>
     match entryHI code nvars t with
     | some k => if k ≤ a.h then some [((pc : Int) + 1, { a with h := a.h - k + 1 })] else none
@@ -135,8 +144,8 @@ def step1 (code : Array Shape) (tab : List (Int × Nat)) (nvars : Nat) (pc : Nat
   | .iter => if 1 ≤ a.h then some [((pc : Int) + 1, a)] else none
   | .expbegin => some [((pc : Int) + 1, a)]
   | .expend => some [((pc : Int) + 1, a)]
-  | .pathbegin => if 1 ≤ a.h then some [((pc : Int) + 1, a)] else none
-  | .pathend => if 2 ≤ a.h then some [((pc : Int) + 1, { a with h := a.h - 1 })] else none
+  | .pathbegin => if 1 ≤ a.h then some [((pc : Int) + 1, { a with pd := a.pd + 1 })] else none
+  | .pathend => if 2 ≤ a.h ∧ 1 ≤ a.pd then some [((pc : Int) + 1, { a with h := a.h - 1, pd := a.pd - 1 })] else none
   | .bad => none
 
 abbrev Ann := Array (Option Abs)
@@ -145,7 +154,7 @@ abbrev Ann := Array (Option Abs)
     produced number of owned entries (heights are lower bounds; they differ only after the
     hand-written `load; call _break` of `_modify`, which never falls through), and it claims a
     pending fork only if one is produced -/
-def Abs.accepts (b s : Abs) : Bool := decide (b.h ≤ s.h) && (!b.pend || s.pend)
+def Abs.accepts (b s : Abs) : Bool := decide (b.h ≤ s.h) && (!b.pend || s.pend) && decide (b.pd ≤ s.pd)
 
 /-- one successor is consistent with the annotation: in range, not a function entry (those are
     entered by call / callrec / callpc only), annotated with a state that accepts the produced one -/
@@ -156,7 +165,7 @@ def succOK (code : Array Shape) (ann : Ann) (s : Int × Abs) : Bool :=
 
 /-- the annotation of a function entry: its entry height, no fork known to be pending -/
 def entryAbs (code : Array Shape) (nvars : Nat) (pc : Nat) : Option Abs :=
-  (entryH code nvars pc).map fun h => { h := h, pend := false }
+  (entryH code nvars pc).map fun h => { h := h, pend := false, pd := 0 }
 
 def verifyAt (code : Array Shape) (tab : List (Int × Nat)) (nvars : Nat) (ann : Ann) (pc : Nat) : Bool :=
   match code[pc]?, ann[pc]? with
@@ -197,7 +206,7 @@ def inferLoop (code : Array Shape) (tab : List (Int × Nat)) (nvars : Nat) : Nat
             | some (some b) =>
               -- meet (a join point reached with fewer owned entries / without a pending fork): revisit
               if b.accepts s.2 then acc
-              else (s.1.toNat :: acc.1, acc.2.set! s.1.toNat (some { h := min b.h s.2.h, pend := b.pend && s.2.pend }))
+              else (s.1.toNat :: acc.1, acc.2.set! s.1.toNat (some { h := min b.h s.2.h, pend := b.pend && s.2.pend, pd := min b.pd s.2.pd }))
             | none => acc
           else acc) (wl, ann)
         inferLoop code tab nvars fuel r.1 r.2
@@ -238,7 +247,8 @@ def viewS (i : Instr) : Opt.Instr :=
   | .forktryend => { op := "forktryend" } | .forkalt t => { op := "forkalt", tgt := some t }
   | .forklabel a b => { op := "forklabel", ints := [a, b] } | .backtrack => { op := "backtrack" }
   | .jump t => { op := "jump", tgt := some t } | .jumpifnot t => { op := "jumpifnot", tgt := some t }
-  | .index _ => { op := "index" } | .indexarray _ => { op := "indexarray" }
+  | .index k => { op := "index", arg := if nonNull k then "_" else "null" }
+  | .indexarray k => { op := "indexarray", arg := if nonNull k then "_" else "null" }
   | .call t => { op := "call", tgt := some t }
   | .callNative k n => { op := "calln", ints := [kindCode k, n] }
   | .callrec t => { op := "callrec", tgt := some t } | .pushpc t => { op := "pushpc", tgt := some t }
@@ -249,6 +259,8 @@ def viewS (i : Instr) : Opt.Instr :=
 
 /-- the shape of a dumped instruction; anything unexpected is `bad` (rejected) -/
 def shapeV (i : Opt.Instr) : Shape :=
+  if i.op == "index" then .index (i.arg != "null") else
+  if i.op == "indexarray" then .indexarray (i.arg != "null") else
   match i.op, i.tgt, i.ints with
   | "nop", _, _ => .nop | "push", _, _ => .push | "pop", _, _ => .pop | "dup", _, _ => .dup
   | "const", _, _ => .const
@@ -258,7 +270,6 @@ def shapeV (i : Opt.Instr) : Shape :=
   | "forktryend", _, _ => .forktryend | "forkalt", some t, _ => .forkalt t
   | "forklabel", _, [a, b] => .forklabel a b | "backtrack", _, _ => .backtrack
   | "jump", some t, _ => .jump t | "jumpifnot", some t, _ => .jumpifnot t
-  | "index", _, _ => .index | "indexarray", _, _ => .indexarray
   | "call", some t, _ => .call t
   | "calln", _, [k, n] => .callNative (kindOfCode k) n
   | "callrec", some t, _ => .callrec t | "pushpc", some t, _ => .pushpc t
@@ -287,6 +298,9 @@ def parseDump (tok : String) : Option Opt.Instr :=
         | some n => some { op := "calln", arg := arg, ints := [nativeKindCode name, n] }
         | none => none
       | _ => none
+    else if op == "index" || op == "indexarray" then
+      -- `v6e` is the wire form `n` of a nil constant
+      some { op := op, arg := if arg == "v6e" then "null" else "_" }
     else
       some { op := op, tgt := if tgt == "_" then none else tgt.toInt?, arg := arg,
              ints := if arg.startsWith "v" || arg == "_" then [] else Opt.parseInts arg }
